@@ -23,6 +23,9 @@ CONSTANTS Scenarios      \* set of scenarios explored from Init
 (*        "missing"   does not exist (first stat fails)                      *)
 (*        "streamerr" the stream returns an error (DSL run-time error,       *)
 (*                    malformed input, record the writer cannot express)     *)
+(*        "writefail" the temp file cannot take the output (file size limit,  *)
+(*                    full device): a write or the final flush fails, the    *)
+(*                    stream returns an error like "streamerr"              *)
 (*        "abort"     a verb exits the process directly inside the stream    *)
 (*        "wrapfail"  cannot be recompressed (bzip2): fails after the temp   *)
 (*                    file exists                                            *)
@@ -88,7 +91,7 @@ Wrote == /\ alive /\ pc = "stream" /\ written < File.n
          /\ written' = written + 1 /\ Hook("wrote")
          /\ UNCHANGED <<sc, cur, pc, content, mode, temp, alive, exit, leftovers>>
 \* main.return: the stream's final flush
-Flushed == /\ alive /\ pc = "stream" /\ written = File.n /\ File.kind # "abort"
+Flushed == /\ alive /\ pc = "stream" /\ (written = File.n \/ File.kind = "writefail") /\ File.kind # "abort"
            /\ pc' = "flushed" /\ Hook("flushed")
            /\ UNCHANGED <<sc, cur, content, mode, temp, written, alive, exit, leftovers>>
 \* a verb exits the process inside the stream: no clean-up, no hook
@@ -96,7 +99,7 @@ Abort == /\ alive /\ pc = "stream" /\ File.kind = "abort"     \* whatever has be
          /\ alive' = FALSE /\ exit' = "abort" /\ leftovers' = leftovers + 1 /\ pc' = "aborted"
          /\ UNCHANGED <<sc, cur, content, mode, temp, written, last, cnt>>
 \* inplace.errReturn("stream"): the temp file is removed first
-ErrStream == /\ alive /\ pc = "flushed" /\ File.kind = "streamerr"
+ErrStream == /\ alive /\ pc = "flushed" /\ File.kind \in {"streamerr", "writefail"}
              /\ temp' = "none" /\ ErrorExit /\ pc' = "returned" /\ Hook("errReturn")
              /\ UNCHANGED <<sc, cur, content, mode, written, leftovers>>
 \* inplace.streamDone
